@@ -430,3 +430,61 @@ class Ctx:
             evdir = os.path.join(VERIF, ".work", "evidence-scratch")
         os.makedirs(evdir, exist_ok=True)
         json.dump(ev, open(os.path.join(evdir, "%s.json" % self.pid), "w"), indent=1)
+
+
+def coverage_report(ctx, cov, src):
+    """Line coverage of the property's anchored files by this run's in-process calls (development aid, VERIF_COVERAGE=1)."""
+    anchors = []
+    for line in open(os.path.join(VERIF, "properties.jsonl")):
+        p = json.loads(line)
+        if p["id"] == ctx.pid:
+            anchors = p["anchors"]["files"]
+    rep = {}
+    for f in anchors:
+        path = os.path.join(os.path.dirname(src.rstrip("/")), f) if not f.startswith("src/") else os.path.join(os.path.dirname(src.rstrip("/")), f)
+        path = os.path.join(src, f[len("src/"):]) if f.startswith("src/") else path
+        try:
+            _, stmts, _, missing, _ = cov.analysis2(path)
+        except Exception as e:  # file not imported / not measurable
+            rep[f] = {"error": str(e)[:100]}
+            continue
+        runs, start, prev = [], None, None
+        for m in missing:
+            if start is None:
+                start = prev = m
+            elif m <= prev + 2:
+                prev = m
+            else:
+                runs.append((start, prev)); start = prev = m
+        if start is not None:
+            runs.append((start, prev))
+        rep[f] = {"statements": len(stmts), "executed": len(stmts) - len(missing),
+                  "missing": ["%d-%d" % r if r[0] != r[1] else str(r[0]) for r in runs]}
+    # per anchored function: names mentioned in the anchors' 'where' fields, located with ast in the current source
+    import ast
+    names = set()
+    for line in open(os.path.join(VERIF, "properties.jsonl")):
+        p = json.loads(line)
+        if p["id"] == ctx.pid:
+            for m in p["anchors"]["mechanism"]:
+                names.update(re.findall(r"[A-Za-z_][A-Za-z_0-9]{2,}", " ".join(re.findall(r"\(([^)]*)\)", m.get("where", "")))))
+    fn_rep = {}
+    for f in anchors:
+        path = os.path.join(src, f[len("src/"):]) if f.startswith("src/") else f
+        try:
+            tree = ast.parse(open(path).read())
+            _, stmts, _, missing, _ = cov.analysis2(path)
+        except Exception:
+            continue
+        for node in ast.walk(tree):
+            if isinstance(node, (ast.FunctionDef,)) and node.name in names:
+                lo, hi = node.lineno, node.end_lineno
+                st = [x for x in stmts if lo < x <= hi]
+                ms = [x for x in missing if lo < x <= hi]
+                fn_rep["%s:%s" % (os.path.basename(f), node.name)] = {"statements": len(st), "missing_lines": ms}
+    ctx.extra["anchored_function_coverage"] = fn_rep
+    rep["_functions"] = fn_rep
+    ctx.extra["anchored_line_coverage"] = {k: v for k, v in rep.items() if k != "_functions"}
+    out = os.path.join(VERIF, ".work", "coverage_%s.json" % ctx.pid)
+    os.makedirs(os.path.dirname(out), exist_ok=True)
+    json.dump(rep, open(out, "w"), indent=1)
